@@ -41,17 +41,17 @@ over a well-typed world, evaluation returns rows, the specification returns rows
 of the latter (one result row per satisfying assignment). -/
 theorem C02_multiplicity_typed (sig : Sig) (Γ : VarCtx) (Λ : LitCtx) (w : World) (q : SQuery) (c : SExpr)
     (hc : q.cond = some c) (hF : c.F2 = true) (hsel : selOK q.sel c = true)
-    (hdt : DomTruthy w) (hnd : ∀ v, (w.dom v).Nodup) (hlit : LitNodup (build c))
+    (hnd : ∀ v, (w.dom v).Nodup) (hlit : LitNodup (build c))
     (hw : World.wt sig Γ w = true) (hq : q.wt sig w Γ Λ = true) :
     ∃ rows rows', evalQuery w q.toQuery = .ok rows ∧ solutions w q = .ok rows' ∧ rows.Perm rows' := by
   obtain ⟨rows, h1⟩ := evalQuery_ok hw hq
   obtain ⟨rows', h2⟩ := solutions_ok hw hq
-  exact ⟨rows, rows', h1, h2, C02_multiplicity w q c hc hF hsel hdt hnd hlit h1 h2⟩
+  exact ⟨rows, rows', h1, h2, C02_multiplicity w q c hc hF hsel hnd hlit h1 h2⟩
 
 /-- **C02_the_typed.** `C02_the` without the `.ok` hypotheses. -/
 theorem C02_the_typed (sig : Sig) (Γ : VarCtx) (Λ : LitCtx) (w : World) (q : SQuery) (c : SExpr)
     (hc : q.cond = some c) (hF : c.F2 = true) (hsel : selOK q.sel c = true)
-    (hdt : DomTruthy w) (hnd : ∀ v, (w.dom v).Nodup) (hlit : LitNodup (build c))
+    (hnd : ∀ v, (w.dom v).Nodup) (hlit : LitNodup (build c))
     (hw : World.wt sig Γ w = true) (hq : q.wt sig w Γ Λ = true) :
     ∃ rows rows', evalQuery w q.toQuery = .ok rows ∧ solutions w q = .ok rows' ∧
       rows.length = rows'.length ∧
@@ -61,22 +61,22 @@ theorem C02_the_typed (sig : Sig) (Γ : VarCtx) (Λ : LitCtx) (w : World) (q : S
       (Quant.theSpec rows = .multipleSolutions ↔ 2 ≤ rows'.length) := by
   obtain ⟨rows, h1⟩ := evalQuery_ok hw hq
   obtain ⟨rows', h2⟩ := solutions_ok hw hq
-  exact ⟨rows, rows', h1, h2, C02_the w q c hc hF hsel hdt hnd hlit h1 h2⟩
+  exact ⟨rows, rows', h1, h2, C02_the w q c hc hF hsel hnd hlit h1 h2⟩
 
 /-- **C01_sound_complete_typed.** `C01_sound_complete_union_partial` without the `.ok` hypotheses — the headline:
 for every well-typed query of the positive fragment `Fp1` (`and_`, `or_` between conditions over arbitrary variable
-sets, `not_` over `F1` sub-conditions; selected attribute/index chains) over a well-typed world with truthy,
-duplicate-free, non-empty domains, evaluation **raises no exception** and returns **exactly** the rows of the
+sets, `not_` over `F1` sub-conditions; selected attribute/index chains) over a well-typed world with
+duplicate-free, non-empty domains (falsy domain values allowed since fix commit `78cb732` repaired F-C01-3), evaluation **raises no exception** and returns **exactly** the rows of the
 satisfying assignments (soundness →, completeness ←). -/
 theorem C01_sound_complete_typed (sig : Sig) (Γ : VarCtx) (Λ : LitCtx) (w : World) (q : SQuery) (c : SExpr)
     (hc : q.cond = some c) (hF : c.Fp1 = true) (hsel : selF1 q.sel = true) (hms : trigMultiSel q = false)
-    (hdt : DomTruthy w) (hnd : ∀ v, (w.dom v).Nodup) (hne : ∀ v ∈ q.vars, w.dom v ≠ [])
+    (hnd : ∀ v, (w.dom v).Nodup) (hne : ∀ v ∈ q.vars, w.dom v ≠ [])
     (hlit : LitNodup (build c))
     (hw : World.wt sig Γ w = true) (hq : q.wt sig w Γ Λ = true) :
     ∃ rows rows', evalQuery w q.toQuery = .ok rows ∧ solutions w q = .ok rows' ∧ ∀ r, r ∈ rows ↔ r ∈ rows' := by
   obtain ⟨rows, h1⟩ := evalQuery_ok hw hq
   obtain ⟨rows', h2⟩ := solutions_ok hw hq
-  exact ⟨rows, rows', h1, h2, C01_sound_complete_union_partial w q c hc hF hsel hms hdt hnd hne hlit h1 h2⟩
+  exact ⟨rows, rows', h1, h2, C01_sound_complete_union_partial w q c hc hF hsel hms hnd hne hlit h1 h2⟩
 
 /-! ## the cell-level theorems, typed
 
@@ -85,24 +85,22 @@ assignment `τ`; their `.ok` hypotheses are discharged when `env` and `τ` are w
 for the empty environment and for the assignments `solutions` enumerates). -/
 
 /-- **C01_cover_typed.** `C01_cover` without the `.ok` hypotheses. -/
-theorem C01_cover_typed (sig : Sig) (Γ : VarCtx) (Λ : LitCtx) (w : World) (hw : DomTruthy w) (τ : Asg) (e : Expr)
+theorem C01_cover_typed (sig : Sig) (Γ : VarCtx) (Λ : LitCtx) (w : World) (τ : Asg) (e : Expr)
     (hF : e.Fc = true) (hτ : ∀ v ∈ e.vars, ∃ x, τ.lookup v = some x ∧ (w.dom v).count x = 1)
     (hlit : LitNodup e) (env : Env)
-    (htr : ∀ v x, (Key.var v, x) ∈ env → truthy x = true)
     (hfresh : ∀ id, Key.lit id ∈ e.nodes → env.lookup (.lit id) = none)
     (hag : agreesB τ env = true)
     (hww : World.wt sig Γ w = true) (he : e.wt sig w Γ Λ = true) (henv : EnvWt w Γ Λ env) (hτw : AsgWt w Γ τ) :
     ∃ rs b, eval w e env = .ok rs ∧ satE w e τ = .ok b ∧ (rs.filter fun p => agreesB τ p.1).map (·.2) = [b] := by
   obtain ⟨rs, h1, _⟩ := eval_ok hww e he env henv
   obtain ⟨b, h2⟩ := satE_ok hww hτw e he (fun v hv => by obtain ⟨x, hx, _⟩ := hτ v hv; simp [hx])
-  exact ⟨rs, b, h1, h2, C01_cover w hw τ e hF hτ hlit env rs b htr hfresh hag h1 h2⟩
+  exact ⟨rs, b, h1, h2, C01_cover w τ e hF hτ hlit env rs b hfresh hag h1 h2⟩
 
 /-- **union_cells_typed.** `union_true_sound` and `union_cell_complete` without the `.ok` hypotheses: on the positive
 fragment every true cell compatible with `τ` is sound, and `τ` lies in some cell flagged with the truth value of `e`. -/
-theorem union_cells_typed (sig : Sig) (Γ : VarCtx) (Λ : LitCtx) (w : World) (hw : DomTruthy w) (τ : Asg) (e : Expr)
+theorem union_cells_typed (sig : Sig) (Γ : VarCtx) (Λ : LitCtx) (w : World) (τ : Asg) (e : Expr)
     (hF : e.Fp = true) (hτ : ∀ v ∈ e.vars, ∃ x, τ.lookup v = some x ∧ (w.dom v).count x = 1)
     (hlit : LitNodup e) (env : Env)
-    (htr : ∀ v x, (Key.var v, x) ∈ env → truthy x = true)
     (hfresh : ∀ id, Key.lit id ∈ e.nodes → env.lookup (.lit id) = none)
     (hag : agreesB τ env = true)
     (hww : World.wt sig Γ w = true) (he : e.wt sig w Γ Λ = true) (henv : EnvWt w Γ Λ env) (hτw : AsgWt w Γ τ) :
@@ -112,8 +110,8 @@ theorem union_cells_typed (sig : Sig) (Γ : VarCtx) (Λ : LitCtx) (w : World) (h
   obtain ⟨rs, h1, _⟩ := eval_ok hww e he env henv
   obtain ⟨b, h2⟩ := satE_ok hww hτw e he (fun v hv => by obtain ⟨x, hx, _⟩ := hτ v hv; simp [hx])
   exact ⟨rs, b, h1, h2,
-    fun p hp hpt hpa => union_true_sound w hw τ e hF hτ hlit env rs b htr hfresh h1 p hp hpt hpa h2,
-    union_cell_complete w hw τ e hF hτ hlit env rs b htr hfresh hag h1 h2⟩
+    fun p hp hpt hpa => union_true_sound w τ e hF hτ hlit env rs b hfresh h1 p hp hpt hpa h2,
+    union_cell_complete w τ e hF hτ hlit env rs b hfresh hag h1 h2⟩
 
 /-! ## non-vacuity (tests, by `decide`)
 
@@ -137,18 +135,18 @@ example :
 example : ∃ rows rows', evalQuery c02nvW c02nvQ.toQuery = .ok rows ∧ solutions c02nvW c02nvQ = .ok rows' ∧
     rows.Perm rows' :=
   C02_multiplicity_typed tyNvSig tyNvΓ tyNvΛ c02nvW c02nvQ c02nvC rfl (by decide) (by decide)
-    (domTruthy_of_B (by decide)) (domsNodup_of_B (by decide)) (by decide) (by decide) (by decide)
+    (domsNodup_of_B (by decide)) (by decide) (by decide) (by decide)
 
 /-- `C01_sound_complete_typed` applied to the two `Union` test queries -/
 example : ∃ rows rows', evalQuery c02nvW c01unQ.toQuery = .ok rows ∧ solutions c02nvW c01unQ = .ok rows' ∧
     ∀ r, r ∈ rows ↔ r ∈ rows' :=
   C01_sound_complete_typed tyNvSig tyNvΓ tyNvΛ c02nvW c01unQ c01unC rfl (by decide) (by decide) (by decide)
-    (domTruthy_of_B (by decide)) (domsNodup_of_B (by decide)) (by decide) (by decide) (by decide) (by decide)
+    (domsNodup_of_B (by decide)) (by decide) (by decide) (by decide) (by decide)
 
 example : ∃ rows rows', evalQuery c02nvW c01unQ2.toQuery = .ok rows ∧ solutions c02nvW c01unQ2 = .ok rows' ∧
     ∀ r, r ∈ rows ↔ r ∈ rows' :=
   C01_sound_complete_typed tyNvSig tyNvΓ tyNvΛ c02nvW c01unQ2 c01unC2 rfl (by decide) (by decide) (by decide)
-    (domTruthy_of_B (by decide)) (domsNodup_of_B (by decide)) (by decide) (by decide) (by decide) (by decide)
+    (domsNodup_of_B (by decide)) (by decide) (by decide) (by decide) (by decide)
 
 /-! The discipline is not vacuous in the other direction either: the queries it rejects include the ones that
 raise. `x.a < x.items` (`TypeError`), `x.nope == 1` (`AttributeError`), `x.items[0] == 1` over possibly empty lists
